@@ -89,6 +89,8 @@ structure RunReq where
   truth : List (Nat × Bytes)
   /-- observed outcome of each solved piece, in the order of `order` -/
   outcomes : List String
+  /-- emulated crash: index of the mutating operation that was cut, and how much of it was applied -/
+  crash : Option (Nat × Nat) := none
 
 def pSeq7 (ts : List String) : Option (RunReq × List String) :=
   match ts with
@@ -125,8 +127,13 @@ def pSeq7 (ts : List String) : Option (RunReq × List String) :=
                       (pList (pPair pNat pHex) r11).bind fun (g, r12) =>
                       match r12 with
                       | "U" :: r12 =>
-                        (pList pTok r12).map fun (u, r13) =>
-                          (⟨docs, exp, scan, resize, threads, dirs, files, inodes, q, o, x, g, u⟩, r13)
+                        (pList pTok r12).bind fun (u, r13) =>
+                          match r13 with
+                          | "K" :: k :: j :: r14 =>
+                            match k.toNat?, j.toNat? with
+                            | some k, some j => some (⟨docs, exp, scan, resize, threads, dirs, files, inodes, q, o, x, g, u, some (k, j)⟩, r14)
+                            | _, _ => none
+                          | _ => some (⟨docs, exp, scan, resize, threads, dirs, files, inodes, q, o, x, g, u, none⟩, r13)
                       | _ => none
                     | _ => none
                   | _ => none
